@@ -224,15 +224,35 @@ def applyDelta (ws : List WSt) (w : Nat) : Option WSt → List WSt
   | none => ws
   | some st => ws.set w st
 
+/-- `while main_snapshots and main_snapshots[0][0] < rcvd_idx - 1: popleft` (map-style `_snapshot_due`). -/
+def dropStale (rcvd : Nat) : List (Nat × Nat) → List (Nat × Nat)
+  | [] => []
+  | e :: r => if e.1 + 1 < rcvd then dropStale rcvd r else e :: r
+
+/-- `_snapshot_due` (only called with a non-zero interval): the state it leaves and its answer.
+Iterable: `(num_yielded + 1) % interval == 0`.  Map-style (repo fix f1014eb): the main snapshots of
+tasks before `rcvd_idx - 1` are dropped; due iff the head of the deque is the task `rcvd_idx - 1`. -/
+def snapshotDue (c : Cfg) (s : State) : State × Bool :=
+  if c.iterable then (s, decide ((s.numYielded + 1) % c.interval = 0))
+  else
+    let ms := dropStale s.rcvdIdx s.mainSnaps
+    ({ s with mainSnaps := ms },
+      match ms with
+      | [] => false
+      | e :: _ => decide (e.1 + 1 = s.rcvdIdx))
+
 /-- The part of `_process_data` after the re-raise of an error, followed by `__next__`'s
 `_num_yielded += 1`. -/
 def yieldItem (c : Cfg) (s : State) (r : Res) (b : Nat) : State × Obs :=
   let s := { s with lastW := r.w, wsnaps := applyDelta s.wsnaps r.w r.st }
-  if c.interval ≠ 0 ∧ (s.numYielded + 1) % c.interval = 0 then
-    match takeSnapshot c s with
-    | some s' => ({ s' with numYielded := s'.numYielded + 1 }, .item b)
-    | none => ({ s with mainSnaps := (popSnaps s.rcvdIdx s.mainSnaps none).2 }, .assertion)
-  else ({ s with numYielded := s.numYielded + 1 }, .item b)
+  if c.interval = 0 then ({ s with numYielded := s.numYielded + 1 }, .item b)
+  else
+    let d := snapshotDue c s
+    if d.2 then
+      match takeSnapshot c d.1 with
+      | some s' => ({ s' with numYielded := s'.numYielded + 1 }, .item b)
+      | none => ({ d.1 with mainSnaps := (popSnaps d.1.rcvdIdx d.1.mainSnaps none).2 }, .assertion)
+    else ({ d.1 with numYielded := d.1.numYielded + 1 }, .item b)
 
 /-- `_process_data`; the observation is what `next()` returns or raises. -/
 def processData (c : Cfg) (s : State) (r : Res) : State × Obs :=
